@@ -240,7 +240,7 @@ def playback(h, prop):
     with SlotLock("kslot") as slot:
         cmd = kani_cmd(h, slot.target_dir, extra=["-Z", "concrete-playback", "--concrete-playback=inplace"])
         # the driver holds the whole counterexample trace in memory on top of CBMC: give the playback run more room
-        shell = "ulimit -v %d; exec %s" % (max(2 * h.mem_gb, 40) * 1024 * 1024, " ".join("'%s'" % c for c in cmd))
+        shell = "exec %s" % " ".join("'%s'" % c for c in cmd)  # no address-space cap here: the driver's trace handling needs tens of GB of virtual memory
         rc, out = sh(shell, cwd=scratch, timeout=2 * h.timeout,
                      log=os.path.join(LOGS, "playback_gen_%s_%s.log" % (h.crate, h.name.replace("::", "_"))))
     # find the generated tests
